@@ -414,6 +414,8 @@ class R:
             return NotImplemented
         if isinstance(o, C) or _is_pycomplex(o):
             return C.lift(self)._cmp(o, op)
+        if isinstance(o, (str, bytes, type(None))):
+            return NotImplemented
         o = R.lift(o)
         if self.conc() and o.conc():
             return _PYCMP[op](self.n, o.n)
@@ -479,6 +481,10 @@ _NATIVE = {
 
 def cmp_formula(a, b, op):
     """Formula for a op b; a, b symbolic R with non-zero denominators (cross-multiplied)."""
+    if op == '>':           # canonical orientation: a >= b and b <= a yield the identical formula
+        a, b, op = b, a, '<'
+    elif op == '>=':
+        a, b, op = b, a, '<='
     if a.d is None and b.d is None:
         return E.cmp(op, a.n, b.n)
     if a.d is b.d:
@@ -842,12 +848,12 @@ class C:
         raise EngineGap('ordering of complex scalars')
 
     def __eq__(s, o):
-        if isinstance(o, SymArrayBase):
+        if isinstance(o, (SymArrayBase, str, bytes, type(None))):
             return NotImplemented
         return s._cmp(o, '==')
 
     def __ne__(s, o):
-        if isinstance(o, SymArrayBase):
+        if isinstance(o, (SymArrayBase, str, bytes, type(None))):
             return NotImplemented
         return s._cmp(o, '!=')
     __hash__ = None
